@@ -138,7 +138,7 @@ func (g *c28Gen) tsInside() uint64 {
 
 func (g *c28Gen) tsAt(off time.Duration) uint64 { return uint64(g.now.Add(off).Unix()) }
 
-var c28OutsideKinds = []string{"past-3w", "future-3w", "past-2w", "future-2w", "zero", "future-10y",
+var c28OutsideKinds = []string{"past-w+30s", "future-w+30s", "past-w+2m", "future-w+2m", "past-w+4m", "future-w+4m", "past-w+10m", "future-w+10m", "past-3w", "future-3w", "past-2w", "future-2w", "zero", "future-10y",
 	"future-300y", "two-pow-62", "max-int64", "min-int64", "max-uint64"}
 
 func (g *c28Gen) tsOutside() (uint64, string) {
@@ -146,6 +146,22 @@ func (g *c28Gen) tsOutside() (uint64, string) {
 	const year = 365 * 24 * 3600
 	now := g.now.Unix()
 	switch kind {
+	case "past-w+30s":
+		return g.tsAt(-g.window - 30*time.Second), kind
+	case "future-w+30s":
+		return g.tsAt(g.window + 30*time.Second), kind
+	case "past-w+2m":
+		return g.tsAt(-g.window - 2*time.Minute), kind
+	case "future-w+2m":
+		return g.tsAt(g.window + 2*time.Minute), kind
+	case "past-w+4m":
+		return g.tsAt(-g.window - 4*time.Minute), kind
+	case "future-w+4m":
+		return g.tsAt(g.window + 4*time.Minute), kind
+	case "past-w+10m":
+		return g.tsAt(-g.window - 10*time.Minute), kind
+	case "future-w+10m":
+		return g.tsAt(g.window + 10*time.Minute), kind
 	case "past-3w":
 		return g.tsAt(-3 * g.window), kind
 	case "future-3w":
@@ -664,6 +680,9 @@ func c28RxTuples(rx []c28Rx) []string {
 }
 
 func c28SeenBy(rng *verifkit.Rand, h *c28Rig, allowLocal bool) []identity.AgentID {
+	if rng.Chance(1, 3) {
+		return c28LongSeenBy(rng)
+	}
 	var out []identity.AgentID
 	n := rng.Intn(3)
 	for i := 0; i < n; i++ {
@@ -679,4 +698,25 @@ func c28SeenBy(rng *verifkit.Rand, h *c28Rig, allowLocal bool) []identity.AgentI
 		}
 	}
 	return out
+}
+
+// c28LongSeenBy returns a SeenBy list of hostile length (the list is not covered by the
+// signature and is fully controlled by the sending peer) made of arbitrary agent ids.
+func c28LongSeenBy(rng *verifkit.Rand) []identity.AgentID {
+	n := verifkit.Pick(rng, []int{1, 2, 50, 120, 200, 255})
+	out := make([]identity.AgentID, n)
+	for i := range out {
+		out[i] = c28ID(rng)
+	}
+	return out
+}
+
+// c28KeyFamily is c28Family plus a marker for hostile unsigned header fields, so that a
+// failure that depends on them gets a key of its own.
+func c28KeyFamily(c *c28Cmd) string {
+	f := c28Family(c.Class)
+	if len(c.SeenBy) >= 50 {
+		f += "+long-seenby"
+	}
+	return f
 }
